@@ -49,6 +49,10 @@ Judge(i, e) ==
     [] e.ev = "eap_encode" -> JudgeEapEncode(i, e)
     [] e.ev = "eap_decode" -> JudgeEapDecode(i, e)
     [] e.ev = "eap_reencode" -> JudgeEapReencode(i, e)
+    [] e.ev \in {"decode_body", "parse_header"} ->
+         IF Crashed(e.obs) THEN B(i, << "C04" >>, "decoder crashed or hung")
+         ELSE IF Has(e.obs, "capdiff") /\ e.obs.capdiff THEN B(i, << "C04" >>, "outcome depends on octets beyond the slice length")
+         ELSE << >>
     [] OTHER -> << >>
 
 Init == l = 1 /\ bad = << >>
